@@ -215,11 +215,12 @@ class C12(Check):
                    'data': {'kind': 'late_spikes', 'n': 8300 + shard * 500, 'offset': 1e3, 'scale': 1.0, 'dseed': rng.randrange(1 << 30)}}
         if shard == 0 or tier == 'thorough':
             # the linear-cost operators on ONE sequence of 8193 .. 10000 items (the upper end of the stated range): blocked or
-            # compensated accumulation schemes flush every 2**k items
+            # compensated accumulation schemes flush every 2**k items (the dispersion operators on data whose FIRST item lies far from the
+            # rest: shifted-data schemes centred on the first item lose their digits over such a length)
             for j, op_ in enumerate(('sum', 'mean', 'min', 'max', 'variance', 'stddev')):
                 for mode_ in (('plain', 'mux') if tier == 'quick' else ('plain', 'mux', 'group')):
                     yield {'op': op_, 'mode': mode_, 'km': mode_ != 'plain' and j % 2 == 0, 'long_linear': True,
-                           'data': {'kind': ('small_ints', 'gauss', 'int')[(j + shard) % 3], 'n': (8193, 8200, 10000, 9000, 8193 + 4096, 10000)[(j + shard) % 6],
+                           'data': {'kind': 'outlier_first' if op_ in ('variance', 'stddev') else ('small_ints', 'gauss', 'int')[(j + shard) % 3], 'n': (8193, 8200, 10000, 9000, 8193 + 4096, 10000)[(j + shard) % 6],
                                     'offset': (0.0, 1e3, 1.0)[(j + shard) % 3], 'scale': 1.0, 'dseed': rng.randrange(1 << 30)}}
         for k in range(ncases):
             op = OPS[k % len(OPS)]
